@@ -493,8 +493,8 @@ fn random_knobs(rng: &mut Rng, try_grows_unlimited: usize, peak: usize) -> Knobs
 pub fn run(run: &mut Run, args: &Args) {
     hutil::quiet_panics();
     let mut rng = Rng::new(args.seed);
-    let n_data = run.budget(6, 60);
-    let runs_per_shape = run.budget(3, 12);
+    let n_data = run.budget(10, 60);
+    let runs_per_shape = run.budget(4, 12);
     let mut case_no = 0u64;
     for di in 0..n_data {
         let big = di % 2 == 1;
@@ -619,7 +619,14 @@ pub fn run(run: &mut Run, args: &Args) {
                         (false, format!("error whose root cause is not ResourcesExhausted: {e}"), Some("other".to_string()))
                     }
                 };
-                run.oracle(ok1, &format!("exact-or-resources {sig}"), &detail1);
+                // the class of the recorded finding (notes/C18.md) gets its own signature prefix
+                let class = if !ok1 && detail1.contains("The used disk space during the spilling process has exceeded the allowable limit") {
+                    run.count("disk_limit_surfaced_as_arrow_io_error");
+                    "exact-or-resources[disk-limit-as-io-error]"
+                } else {
+                    "exact-or-resources"
+                };
+                run.oracle(ok1, &format!("{class} {sig}"), &detail1);
                 // (2) everything released
                 run.oracle(
                     r.reserved_after == 0,
